@@ -219,6 +219,7 @@ pub fn cli_tree(ctx: &mut Ctx) {
             }
             if nparts >= 2 { part_stream = Some(all); ctx.count("io:parts-through-stdin"); }
         }
+        let through_stdin_parts = part_stream.is_some();
         let xstdio = (stdio && arch == "a.pna") || part_stream.is_some();
         ctx.count(&format!("archive-name:{arch_name}"));
         if xstdio { xargs.extend(["experimental", "stdio", "--extract", "--out-dir", "out"].map(String::from)); } else { xargs.extend(["extract", arch, "--out-dir", "out"].map(String::from)); }
@@ -230,6 +231,7 @@ pub fn cli_tree(ctx: &mut Ctx) {
         let data = if let Some(ps) = part_stream { Some(ps) } else if xstdio { Some(std::fs::read(sbx.path("a.pna")).unwrap()) } else { None };
         let xr = run_pna(&sbx, &sbx.root, &xv, data.as_deref(), 40, &[]);
         let attrs = json!({"create": cargs, "extract": xargs, "tree": nodes.iter().map(|n| json!({"path": n.path, "kind": n.kind, "len": n.content.len()})).collect::<Vec<_>>()});
+        if through_stdin_parts && (xr.crashed() || xr.hung() || !xr.ok()) { ctx.violation("C04", "the parts of a split archive, read in sequence from standard input, are not read back", json!({"case":attrs,"run":xr.brief()})); }
         if xr.crashed() || xr.hung() { ctx.violation("C07", "`pna extract` crashed or hung", json!({"case":attrs,"run":xr.brief()})); ctx.violation("C02", "`pna extract` crashed or hung on an archive `pna create` just wrote", json!({"case":attrs,"run":xr.brief()})); continue; }
         if !xr.ok() { ctx.violation("C02", "`pna extract` failed on an archive `pna create` just wrote", json!({"case":attrs,"run":xr.brief()})); continue; }
         let snap = snapshot(&sbx.path("out"));
